@@ -51,7 +51,7 @@ def main():
         props = ALL if allc else meta.get('checks_expected') or [meta['property']]
         jobs.append((sdir, props, tier))
     bad = 0
-    with concurrent.futures.ThreadPoolExecutor(max_workers=3) as ex:
+    with concurrent.futures.ThreadPoolExecutor(max_workers=int(os.environ.get("VERIF_JOBS", "3"))) as ex:
         for sdir, res, err in ex.map(run_one, jobs):
             name = os.path.basename(sdir)
             if res is None:
